@@ -25,6 +25,12 @@ CLAIMED = {
  "C20": ("enumx", ENUMX,
          "Every string over an 8-symbol alphabet up to length 7 (quick) / 8 (thorough), every tuple of 0-6 boundary parts, and all 5.7 M ordered pairs of 2401 boundary versions are judged by an independent 15-line parser / numeric tuple order, including print, parse(print), serde and array conversions.",
          "Strings outside the alphabet/length bound are not reached; a leading '+' on a part is treated as unspecified.", "3/C20"),
+ "C01": ("enumx", ENUMX,
+         "For every seed exchange of a finite configuration family (key sets, key used, ids incl. 1 and 2^64-1, four request bodies, three response bodies, three nonces) an independent signer (own digest composition) produces the ETag; the real verifier must accept exactly the 6 encodings and must reject every single-bit flip of response, request, nonce, key id, signature and hash, ~60 structural mutants per seed and every single-byte substitution of the ETag; every string up to length 6/7 over an 8-symbol alphabet is fed as ETag for totality.",
+         "Bodies/nonces outside the seeds are not reached; p256/sha2 trusted; the (r, n-s) twin signature is outside the must-reject list.", "3/C01"),
+ "C15": ("enumx", ENUMX,
+         "Every builder operation sequence up to length 3/4 (all 16 parameter/config combinations) and 4/5 (one combination) over 18 operations on 4 app values (two sharing an id) is built twice and compared - method, URI, headers, JSON body with exact array order - with an independent encoder folding the operation history; every event type x result x error code x optional-field subset is encoded and compared with a literal code table.",
+         "Extra-field keys colliding with protocol attributes are not generated; longer sequences are not reached.", "3/C15"),
 }
 
 PENDING_REASON = "check under construction in this round (design in DESIGN.md section 3); not claimed until its machinery is committed"
